@@ -103,6 +103,35 @@ func GetReqDecoder(rt reflect.Type, byTag string, config *DecodeConfig) (Decoder
 	}, needValidate, nil
 }
 
+// carriesValidateTag reports whether values of type t may carry validation tags: t is (a
+// pointer to, a slice, array or map of) a struct with a tagged field somewhere inside, or
+// an interface, whose dynamic values are not known here. The validator itself walks into
+// all of these; without this the elements of a collection field were never handed to it.
+func carriesValidateTag(t reflect.Type, tag string, seen []reflect.Type) bool {
+	for t.Kind() == reflect.Ptr || t.Kind() == reflect.Slice || t.Kind() == reflect.Array || t.Kind() == reflect.Map {
+		t = t.Elem()
+	}
+	switch t.Kind() {
+	case reflect.Interface:
+		return true
+	case reflect.Struct:
+		if hasSameType(seen, t) {
+			return false
+		}
+		seen = append(seen, t)
+		for i := 0; i < t.NumField(); i++ {
+			f := t.Field(i)
+			if _, ok := f.Tag.Lookup(tag); ok {
+				return true
+			}
+			if carriesValidateTag(f.Type, tag, seen) {
+				return true
+			}
+		}
+	}
+	return false
+}
+
 type parentInfos struct {
 	Types    []reflect.Type
 	Indexes  []int
@@ -139,13 +168,13 @@ func getFieldDecoder(pInfo parentInfos, field reflect.StructField, index int, by
 	// slice/array field decoder
 	if field.Type.Kind() == reflect.Slice || field.Type.Kind() == reflect.Array {
 		dec, err := getSliceFieldDecoder(field, index, fieldTagInfos, pInfo.Indexes, config)
-		return dec, needValidate, err
+		return dec, needValidate || carriesValidateTag(field.Type.Elem(), config.ValidateTag, nil), err
 	}
 
 	// map filed decoder
 	if field.Type.Kind() == reflect.Map {
 		dec, err := getMapTypeTextDecoder(field, index, fieldTagInfos, pInfo.Indexes, config)
-		return dec, needValidate, err
+		return dec, needValidate || carriesValidateTag(field.Type.Elem(), config.ValidateTag, nil), err
 	}
 
 	// struct field will be resolved recursively
